@@ -1,9 +1,17 @@
 package checks
 
 import (
+	"encoding/json"
 	"fmt"
+	"go/constant"
+	"go/types"
+	"os"
+	"path/filepath"
+	"sort"
 	"strconv"
 	"strings"
+
+	"verif/internal/evid"
 
 	"verif/internal/jsonx"
 
@@ -36,7 +44,8 @@ type semSpec struct {
 	args     func(r *sg.Rng, root *sg.Schema) []string
 	intLim   bool
 	parity   bool
-	optsFn   func(i int, o sg.Opts) sg.Opts // per-case variation of the generator options
+	optsFn   func(i int, o sg.Opts) sg.Opts                // per-case variation of the generator options
+	post     func(ctx *Ctx, cases []*sem.Case, o *Outcome) // extra monitors over the generated programs
 }
 
 var commonAssumptions = []string{
@@ -91,7 +100,11 @@ func runSem(ctx *Ctx, sp *semSpec) (*Outcome, error) {
 	if err != nil {
 		return nil, err
 	}
-	return FromSem(ctx, rep, sp.rule, sp.minDec, append(append([]string{}, commonAssumptions...), sp.assume...)), nil
+	o := FromSem(ctx, rep, sp.rule, sp.minDec, append(append([]string{}, commonAssumptions...), sp.assume...))
+	if sp.post != nil {
+		sp.post(ctx, cases, o)
+	}
+	return o, nil
 }
 
 func regSem(sp *semSpec) {
@@ -158,6 +171,7 @@ func init() {
 		opts:    sg.Opts{MaxDepth: 2, W: map[string]float64{"enum": 10, "array": 2, "ref": 2}, PDefault: 0.4},
 		classes: docgen.Classes{"enum": true},
 		own:     classOwner("enum", "valid"),
+		post:    enumConstCensus,
 		values:  true, byValue: true,
 		nQuick: 400, nThor: 6000, valid: 4, perSite: 6, maxDocs: 150, minDec: 3000,
 		rule: "enum lists of 1-4 values per kind (string, integer, number, boolean, mixed incl. null), typed/untyped, inline / $ref / array items / with default; per enum position every member and near-miss non-members of every JSON type; verdict vs model (JSON equality) and re-marshal (by pointer and by value) must give the bare value",
@@ -294,3 +308,111 @@ func sameNameTwinCase(ctx *Ctx, i int, r *sg.Rng) *sem.Case {
 }
 
 var c17strata []*sem.Case
+
+// enumConstCensus checks, through go/types on the emitted package, that every string enum of the schema is exposed as
+// one typed constant per listed value whose value is that string (C08, second sentence).
+func enumConstCensus(ctx *Ctx, cases []*sem.Case, o *Outcome) {
+	enums, missing, extra := 0, 0, 0
+	var viols []Viol
+	for _, c := range cases {
+		p := sem.ProgramOf(c)
+		if p == nil || !p.Usable() || p.Report.Pkg == nil {
+			continue
+		}
+		onlyModels := false
+		for _, a := range c.Args {
+			onlyModels = onlyModels || a == "--only-models"
+		}
+		// constants of the package grouped by their named type
+		byType := map[string]map[string]bool{}
+		scope := p.Report.Pkg.Scope()
+		for _, name := range scope.Names() {
+			cn, ok := scope.Lookup(name).(*types.Const)
+			if !ok {
+				continue
+			}
+			nt, ok := cn.Type().(*types.Named)
+			if !ok || cn.Val().Kind() != constant.String {
+				continue
+			}
+			tn := nt.Obj().Name()
+			if byType[tn] == nil {
+				byType[tn] = map[string]bool{}
+			}
+			byType[tn][constant.StringVal(cn.Val())] = true
+		}
+		// every string enum of the schema must appear as the constant set of some type
+		var lists [][]string
+		c.Root.Walk(func(x *sg.Schema) {
+			if !x.HasEnum || len(x.Enum) == 0 {
+				return
+			}
+			if len(x.Types) == 1 && x.Types[0] != "string" {
+				return
+			}
+			var l []string
+			for _, e := range x.Enum {
+				str, ok := e.(string)
+				if !ok {
+					return // mixed / non-string enum: wrapped, no constants promised
+				}
+				l = append(l, str)
+			}
+			lists = append(lists, l)
+		})
+		for _, l := range lists {
+			enums++
+			want := map[string]bool{}
+			for _, v := range l {
+				want[v] = true
+			}
+			found := false
+			best := ""
+			for tn, got := range byType {
+				if len(got) == len(want) {
+					same := true
+					for v := range want {
+						same = same && got[v]
+					}
+					if same {
+						found = true
+						break
+					}
+				}
+				// remember a near miss for the message
+				inter := 0
+				for v := range want {
+					if got[v] {
+						inter++
+					}
+				}
+				if inter > 0 && best == "" {
+					best = fmt.Sprintf("%s has constants %v", tn, keysOfSet(got))
+				}
+			}
+			if !found {
+				missing++
+				if len(viols) < 4 {
+					b, _ := json.MarshalIndent(map[string]any{"property": "C08", "kind": "constant census", "enum": l, "near_miss": best, "schema": json.RawMessage(jsonx.Marshal(c.Root.ToJSON())), "args": c.Args, "emitted": string(p.Src)}, "", " ")
+					path := filepath.Join(evid.ReplayDir(), fmt.Sprintf("C08-census-%d.json", len(viols)))
+					_ = os.WriteFile(path, b, 0o644)
+					viols = append(viols, Viol{Replay: path, Summary: fmt.Sprintf("constant census: no type exposes exactly one constant per value of the string enum %q (%s)", l, best)})
+				}
+			}
+		}
+		_ = extra
+		_ = onlyModels
+	}
+	o.Coverage["string_enums_census"] = enums
+	o.Coverage["string_enums_without_exact_constants"] = missing
+	o.Violations = append(o.Violations, viols...)
+}
+
+func keysOfSet(m map[string]bool) []string {
+	var out []string
+	for k := range m {
+		out = append(out, k)
+	}
+	sort.Strings(out)
+	return out
+}
